@@ -207,10 +207,13 @@ def main():
     ap.add_argument("pid")
     ap.add_argument("--tier", default=os.environ.get("VERIF_TIER", "quick"))
     ap.add_argument("--replay")
+    ap.add_argument("--seed", type=int, default=None, help="PRNG seed of the generated streams (default: $VERIF_SEED or 1)")
     a = ap.parse_args()
     if a.tier not in ("quick", "thorough"):
         a.tier = "quick"
     seed = int(os.environ.get("VERIF_SEED", "1") or 1)
+    if a.seed is not None:
+        seed = a.seed
     import props
     if a.pid not in props.REGISTRY:
         print("unknown property " + a.pid)
